@@ -8,6 +8,7 @@ EXTENDS Tail
 CONSTANTS ReqKinds, MaxTicks,
           LeaveAfter,   \* the client does not leave before that many ticks (99: it stays)
           MinTs,        \* smallest timestamp the world uses
+          NoFuture,     \* TRUE: no line carries a timestamp at or after the current clock
           StoresPerTick \* at most that many lines become visible per second (spreads the stores over the run)
 
 VARIABLES sched, nt
@@ -18,12 +19,19 @@ E(op, a, b, k) == [op |-> op, a |-> a, b |-> b, k |-> k]
 Log(e) == sched' = Append(sched, e) /\ nt' = nt
 Quiet  == UNCHANGED <<sched, nt>>
 
+\* a second is long: it only passes when nothing but waiting is left to do (keeps the generated schedules rich in complete ticks)
+Busy ==
+    \/ spc \in {"version", "done", "query", "exit"} \/ (spc = "tick" /\ svcTick)
+    \/ (hpc = "select" /\ (pingTick \/ cancelled \/ chClosed \/ spc \in {"send", "errsend"}))
+    \/ (dpc = "drain" /\ (chClosed \/ spc \in {"send", "errsend"}))
+    \/ (wire # <<>> /\ client \in {"open", "closing", "closed"})
+
 SInit == Init /\ sched = <<>> /\ nt = 0
 
 SNext ==
     \/ /\ Cardinality(store) < StoresPerTick * (nt + 1)
-       /\ \E l \in Lines, t \in MinTs..(MaxT - 1) : StoreLine(l, t) /\ Log(E("store", l, t, ""))
-    \/ nt < MaxTicks /\ Tick /\ sched' = Append(sched, E("tick", 0, 0, "")) /\ nt' = nt + 1
+       /\ \E l \in Lines, t \in MinTs..(MaxT - 1) : (NoFuture => t < now) /\ StoreLine(l, t) /\ Log(E("store", l, t, ""))
+    \/ nt < MaxTicks /\ req # "none" /\ ~Busy /\ Tick /\ sched' = Append(sched, E("tick", 0, 0, "")) /\ nt' = nt + 1
     \/ nt >= LeaveAfter /\ ClientClose /\ Log(E("close", 0, 0, ""))
     \/ nt >= LeaveAfter /\ ClientDrop /\ Log(E("drop", 0, 0, ""))
     \/ ClientRead /\ Quiet
